@@ -23,6 +23,7 @@ ap.add_argument("--twin", default=None)
 ap.add_argument("--storage", default="notes")
 ap.add_argument("--blamefmt", action="store_true")
 ap.add_argument("--stats", action="store_true")
+ap.add_argument("--uv", action="store_true")
 ap.add_argument("--timeout", type=int, default=600)
 ap.add_argument("--module", default="MC_Core.tla")
 a = ap.parse_args()
@@ -37,7 +38,7 @@ print("gen: generated=%d distinct=%d depth=%d behaviours=%d errors=%s (%.1fs)" %
     res["generated"], res["distinct"], res["depth"], len(beh), res["errors"][:2], time.time() - t0))
 sel, ntags = engine.select(beh, a.n, a.seed)
 print("selected %d of %d behaviours, %d tag vectors" % (len(sel), len(beh), ntags))
-cfg = dict(consts, render=a.render, filefam=a.filefam, salt=a.salt, storage=a.storage, blamefmt=a.blamefmt, stats=a.stats)
+cfg = dict(consts, render=a.render, filefam=a.filefam, salt=a.salt, storage=a.storage, blamefmt=a.blamefmt, stats=a.stats, uv=a.uv)
 if a.twin:
     cfg["twin"] = json.loads(a.twin)
 t0 = time.time()
